@@ -47,7 +47,10 @@ class LazyConversion:
     @property
     def inherited(self) -> Optional[bool]:
         conversion = self.get()
-        return isinstance(conversion, Conversion) and conversion.inherited
+        if isinstance(conversion, Conversion):
+            return conversion.inherited
+        # a bare converter is inherited, as when it is registered directly
+        return None if conversion is not None else False
 
 
 ConvOrFunc = Union[Conversion, Converter, property, LazyConversion]
